@@ -73,13 +73,20 @@ def include_sources(f):
     inc = "<%page args=\"x='dx', y='dy'\"/>x=${x} y=${y} self=${self.uri} parent=${context.get('parent', 'noparent') if True else ''} " \
           "local=${local.uri}"
     args = ", ".join("%s='a%s'" % (k, k) for k in ("x", "y") if f["arg_" + k])
-    main = '<%inherit file="/base"/>[<%include file="' + f["uri"] + '"' + (' args="%s"' % args if args else "") + "/>]"
+    tag = '<%include file="' + f["uri"] + '"' + (' args="%s"' % args if args else "") + "/>"
+    assign = "<% x = 'bx' %>" if f.get("body_assigns_x") else ""
+    if f.get("include_in_def"):
+        # the include is written in a def that the body calls: its context carries the body's assignments
+        main = '<%inherit file="/base"/><%def name="part()">' + tag + "</%def>" + assign + "[${part()}]"
+    else:
+        main = '<%inherit file="/base"/>' + assign + "[" + tag + "]"
     return {"/sub/inc": inc, "/sub/main": main, "/base": "B(${next.body()})"}
 
 
 def h_include(p):
     f = {"arg_x": bool(p.choose(2, "x_in_args")), "arg_y": bool(p.choose(2, "y_in_args")), "ctx_x": bool(p.choose(2, "x_in_context")),
-         "ctx_y": bool(p.choose(2, "y_in_context")), "uri": ["inc", "/sub/inc"][p.choose(2, "uri_form")]}
+         "ctx_y": bool(p.choose(2, "y_in_context")), "uri": ["inc", "/sub/inc"][p.choose(2, "uri_form")],
+         "include_in_def": bool(p.choose(2, "include_written_in_a_def")), "body_assigns_x": bool(p.choose(2, "body_assigns_x"))}
     lk = LK.TemplateLookup()
     for k, v in include_sources(f).items():
         lk.put_string(k, v)
@@ -97,7 +104,13 @@ def h_include(p):
 
 
 def ref_include(f):
-    val = lambda k: ("a" + k) if f["arg_" + k] else (("c" + k) if f["ctx_" + k] else "d" + k)
+    def val(k):
+        if f["arg_" + k]:
+            return "a" + k
+        # "from the context second": inside a def called from the body the context holds the body's current assignments
+        if k == "x" and f.get("body_assigns_x") and f.get("include_in_def"):
+            return "bx"
+        return ("c" + k) if f["ctx_" + k] else "d" + k
     return "B([x=%s y=%s self=/sub/inc parent=noparent local=/sub/inc])" % (val("x"), val("y"))
 
 
@@ -190,7 +203,7 @@ def on_ns(p, r, exc, acc):
 
 
 # ------------------------------------------------------------------ every way of reaching a template by URI, from two templates in one render
-API = ["get_namespace", "get_template", "include_file", "include-tag", "namespace-tag", "namespace-import"]
+API = ["get_namespace", "get_template", "include_file", "include-tag", "namespace-tag", "namespace-import", "namespace-then-relative", "namespace-def-uses-local"]
 SECOND = ["/b/two", "/a/x/two", "/two"]
 FORMS = ["lib", "/lib", "x/lib", "nolib", "/a/lib"]
 LIBS = ["/lib", "/a/lib", "/b/lib", "/a/x/lib"]
@@ -204,13 +217,18 @@ def api_text(api, u):
         "include-tag": '<%include file="' + u + '"/>',
         "namespace-tag": '<%namespace name="n" file="' + u + '"/>${n.who()}',
         "namespace-import": '<%namespace file="' + u + '" import="who"/>${who()}',
+        # the namespace object resolves further relative URIs against ITS template, wherever it was loaded from
+        "namespace-then-relative": '<%namespace name="n" file="' + u + '"/>${n.get_namespace("sib").who()}',
+        "namespace-def-uses-local": '<%namespace name="n" file="' + u + '"/>${n.sibling()}',
     }[api]
 
 
 def api_sources(f):
     src = {}
     for l in LIBS:
-        src[l] = '<%def name="who()">LIB:' + l + "</%def>I:" + l
+        src[l] = '<%def name="who()">LIB:' + l + '</%def><%def name="sibling()">${local.get_namespace("sib").who()}</%def>I:' + l
+        sib = l.rsplit("/", 1)[0] + "/sib"
+        src[sib] = '<%def name="who()">SIB:' + sib + "</%def>"
     src["/a/one"] = "one(" + api_text(f["api1"], f["uri"]) + ")"
     src[f["second"]] = "two(" + api_text(f["api2"], f["uri"]) + ")"
     src["/main"] = '<%include file="/a/one"/>|<%include file="' + f["second"] + '"/>|<%include file="/a/one"/>'
@@ -223,6 +241,8 @@ def ref_api(f):
         resolved = u if u.startswith("/") else caller.rsplit("/", 1)[0] + "/" + u
         if resolved not in LIBS:
             return None
+        if api in ("namespace-then-relative", "namespace-def-uses-local"):
+            return "SIB:" + resolved.rsplit("/", 1)[0] + "/sib"
         return {"get_namespace": "LIB:", "get_template": "T:", "include_file": "I:", "include-tag": "I:", "namespace-tag": "LIB:", "namespace-import": "LIB:"}[api] + resolved
     a, b = one("/a/one", f["api1"]), one(f["second"], f["api2"])
     if a is None or b is None:
